@@ -38,6 +38,7 @@ def gen(tier, rng, shard, nshards):
                    "kind": S.pick(rng, ["Dense", "Dense", "Generic", "Identity", "Diagonal", "Product"])}
         else:
             yield {"mode": "pinv", "m": m, "n": n, "dt": dt, "seed": S.seed(rng), "alg": S.pick(rng, [OMIT, "Auto", "LSTSQ", "CG", "CG"]),
+                   "wide_rhs": bool(rng.random() < 0.25),
                    "kind": S.pick(rng, ["Dense", "Dense", "Generic", "Identity", "Diagonal", "ScalarMul", "Permutation", "Product"]),
                    "cols": int(S.pick(rng, [0, 1, 3])), "consistent": bool(rng.random() < 0.5)}
 
@@ -151,6 +152,11 @@ def run_pinv(ctx, case, A, M, eps, preds, rng):
     else:
         b = rng.standard_normal(shape) + (1j * rng.standard_normal(shape) if cplx else 0)
     b = b.astype(A.dtype if np.dtype(A.dtype).kind in "fc" else M.dtype)
+    if case.get("wide_rhs") and not cplx:
+        # a complex right-hand side for a real operator ("all right-hand sides"): pinv(A) @ (u + i v) = pinv(A) u + i pinv(A) v
+        b2 = rng.standard_normal(b.shape).astype(b.dtype)
+        b = (b + 1j * (M @ (rng.standard_normal((n, ) + shape[1:])) if case["consistent"] else b2)).astype(np.result_type(b.dtype, np.complex64))
+        preds = dict(preds, rhs_wider_than_operator=True)
     Pv = ctx.call(pinv, A) if alg is None else ctx.call(pinv, A, alg)
     preds = dict(preds, consistent=case["consistent"])
     if is_err(Pv):
@@ -162,7 +168,7 @@ def run_pinv(ctx, case, A, M, eps, preds, rng):
         return
     ctx.check("pinv-returns", True)
     x = np.asarray(x)
-    want, *_ = np.linalg.lstsq(M, b.astype(M.dtype), rcond=None)
+    want, *_ = np.linalg.lstsq(M.astype(np.result_type(M.dtype, b.dtype)), b.astype(np.result_type(M.dtype, b.dtype)), rcond=None)
     if x.shape != want.shape or not np.all(np.isfinite(x)):
         ctx.check("pinv-shape-finite", False, site="pinv", preds=preds, detail={"got": list(x.shape), "want": list(want.shape)})
         return
